@@ -224,8 +224,9 @@ def main():
     ev = dict(property_id=pid, tier=tier, seed=seed, level='proof', coverage=cov,
               assumptions=res.get('assumptions', []), wall_s=round(time.time() - t0, 2),
               violations=len(new_violations) + (1 if (broken and not new_violations) else 0))
-    os.makedirs(os.path.join(ROOT, 'evidence'), exist_ok=True)
-    json.dump(ev, open(os.path.join(ROOT, 'evidence', f'{pid}.json'), 'w'), indent=1, default=str)
+    evdir = os.environ.get('VERIF_EVIDENCE_DIR') or os.path.join(ROOT, 'evidence')   # (tools/mutcheck.sh redirects it)
+    os.makedirs(evdir, exist_ok=True)
+    json.dump(ev, open(os.path.join(evdir, f'{pid}.json'), 'w'), indent=1, default=str)
     for l in lines:
         print(l)
     print(f'{pid} {tier}: obligations {ob["discharged"]}/{ob["obligations"]}, evaluations {cov["evaluations"]}, '
